@@ -43,6 +43,7 @@ func init() {
 		"vrt_ConnWrites": vrtConnWrites,
 		"vrt_IsOpaque":  vrtIsOpaque,
 		"vrt_Fail":      vrtFail,
+		"vrt_DeepEqual": vrtDeepEqual,
 	}
 }
 
@@ -147,8 +148,9 @@ func vrtAssert(ex *Exec, fn *ssa.Function, args []Value) []Value {
 				sh.mu.Unlock()
 				if want {
 					nc := ex.ts.BNot(c)
-					r := ex.w.solver.Check(ex.pc, nc)
-					x := xcheck{Script: Standalone(ex.pc, nc), Expect: r}
+					spc, snc := ex.sliced(ex.pc, nc)
+					r := ex.w.solver.Check(spc, snc)
+					x := xcheck{Script: Standalone(spc, snc), Expect: r}
 					sh.mu.Lock()
 					sh.xchecks = append(sh.xchecks, x)
 					sh.mu.Unlock()
@@ -177,7 +179,7 @@ func vrtCover(ex *Exec, fn *ssa.Function, args []Value) []Value {
 	if c.IsFalse() || ex.w.sh.coverSeen(l) {
 		return nil
 	}
-	if ex.w.solver.Check(ex.pc, c) == Sat {
+	if ex.solve(c) == Sat {
 		ex.covers[l] = true
 	}
 	return nil
@@ -411,4 +413,15 @@ func vrtConnWrites(ex *Exec, fn *ssa.Function, args []Value) []Value {
 		o.set(i, w)
 	}
 	return []Value{SliceV{obj: o, len: len(cs.writes), cap: len(cs.writes), es: 1}}
+}
+
+func vrtDeepEqual(ex *Exec, fn *ssa.Function, args []Value) []Value {
+	a, b := args[0].(IfaceV), args[1].(IfaceV)
+	if a.t == nil || b.t == nil {
+		return []Value{ex.ts.Bool(a.t == nil && b.t == nil)}
+	}
+	if !types.Identical(a.t, b.t) {
+		return []Value{ex.ts.ff}
+	}
+	return []Value{ex.deepEq(a.v, b.v, a.t, 0)}
 }
